@@ -34,6 +34,22 @@ class ServerUnderTest:
         rt = RP.round_trip(self.addr)
         if rt != (False, 8):
             return 'no-service', f'a fresh well-behaved RemoteWorker after the fault gives {rt}'
+        # a fresh worker inside the healthy client's context (served by the context's own process, not by the accept loop)
+        from pyworkers.persistent_remote import PersistentRemoteWorker
+        box = {}
+
+        def fresh_ctx():
+            w = PersistentRemoteWorker(None, host=self.addr, context=901, main_path='')
+            try:
+                box['v'] = w.call(5)
+            finally:
+                try:
+                    w.terminate(0.5, force=False)
+                except BaseException:  # noqa
+                    pass
+        st, e = watchdog(fresh_ctx, 10)
+        if st != 'ok' or box.get('v') != 1005:
+            return 'no-service-in-context', f'a fresh well-behaved worker in the healthy client\'s context after the fault: {st} {e!r} {box.get("v")!r}'
         for name, w in (('plain', self.healthy), ('in-context', self.healthy_ctx)):
             self.n += 1
             st, v = watchdog(lambda: w.call(self.n), 8)
